@@ -33,12 +33,16 @@ struct Entry {
     request: Vec<u8>, // IETF: the whole datagram; classic: empty
 }
 
-fn one(out: &mut Out, ver: char, per_client: bool, seed: &[u8], entries: Vec<Entry>) {
+/// `prelude`: a batch answered by the SAME responder before the measured one (its datagrams are drained and its
+/// statistics go to a throw-away recorder): what the responder keeps between batches must not matter
+fn one(out: &mut Out, ver: char, per_client: bool, seed: &[u8], entries: Vec<Entry>, prelude: Vec<Entry>) {
     if !out.mine() {
         out.skip();
         return;
     }
-    let es = entries.iter().map(|e| format!("{}:{}:{}", e.addr, hex(&e.nonce), if e.request.is_empty() { "-".to_string() } else { hex(&e.request) })).collect::<Vec<_>>().join(";");
+    let fmt = |v: &Vec<Entry>| if v.is_empty() { "~".to_string() } else { v.iter().map(|e| format!("{}:{}:{}", e.addr, hex(&e.nonce), if e.request.is_empty() { "-".to_string() } else { hex(&e.request) })).collect::<Vec<_>>().join(";") };
+    let es = fmt(&entries);
+    let ps = fmt(&prelude);
     let seed_v = seed.to_vec();
     let imp = on_named_thread("worker-0", move || {
         let receivers: Vec<UdpSocket> = (1..=3u8).map(|k| {
@@ -56,6 +60,18 @@ fn one(out: &mut Out, ver: char, per_client: bool, seed: &[u8], entries: Vec<Ent
             let mut resp = Responder::new(version, &mc, &mut ltk);
             let mut sock = mio::net::UdpSocket::bind(&"0.0.0.0:0".parse().unwrap()).expect("bind");
             sender_port_cell.set(sock.local_addr().unwrap().port());
+            let addr_of = |e: &Entry| if e.addr < 50 { receivers[e.addr as usize - 1].local_addr().unwrap() } else if e.addr < 100 { SocketAddr::new(ip_of(e.addr), 0) } else { SocketAddr::new(ip_of(e.addr), 4000 + e.addr) };
+            if !prelude.is_empty() {
+                for e in &prelude {
+                    let a = addr_of(e);
+                    if ver == 'I' { resp.add_ietf_request(&e.request, e.nonce.clone(), a); } else { resp.add_classic_request(e.nonce.clone(), a); }
+                }
+                let mut throwaway: Box<dyn ServerStats> = Box::new(AggregatedStats::new());
+                resp.send_responses(&mut sock, &mut throwaway);
+                resp.reset(); // as Server::collect_requests does before it queues the next batch
+                let mut buf = [0u8; 8192];
+                for s in receivers.iter() { while recv_from_port(s, &mut buf, sender_port_cell.get()).is_ok() {} }
+            }
             for e in &entries {
                 let a = if e.addr < 50 { receivers[e.addr as usize - 1].local_addr().unwrap() } else if e.addr < 100 { SocketAddr::new(ip_of(e.addr), 0) } else { SocketAddr::new(ip_of(e.addr), 4000 + e.addr) };
                 if ver == 'I' { resp.add_ietf_request(&e.request, e.nonce.clone(), a); } else { resp.add_classic_request(e.nonce.clone(), a); }
@@ -86,7 +102,7 @@ fn one(out: &mut Out, ver: char, per_client: bool, seed: &[u8], entries: Vec<Ent
             Some((tot, per)) => format!("panic=0 tot={} per={} recv={} dg={}", tot, if per.is_empty() { "-".into() } else { per.join("|") }, if recv.is_empty() { "-".into() } else { recv.join(",") }, dgs),
         }
     });
-    out.case("respsend", &[&ver.to_string(), if per_client { "pc" } else { "agg" }, &hex(seed), &es], &imp);
+    out.case("respsend", &[&ver.to_string(), if per_client { "pc" } else { "agg" }, &hex(seed), &es, &ps], &imp);
 }
 
 pub fn run(ctx: &Ctx) {
@@ -108,7 +124,7 @@ pub fn run(ctx: &Ctx) {
             4 => false,
             _ => r.chance(2, 3),
         }).collect();
-        let entries: Vec<Entry> = pat.iter().map(|&ok| {
+        let mut mk = |r: &mut Rng, ok: bool| {
             let addr = if ok { r.range(1, 3) as u16 } else if r.chance(1, 2) { 100 + r.below(3) as u16 } else { 51 + r.below(3) as u16 };
             if ver == 'I' {
                 let nonce = r.bytes(32);
@@ -117,8 +133,39 @@ pub fn run(ctx: &Ctx) {
             } else {
                 Entry { addr, nonce: r.bytes(64), request: vec![] }
             }
-        }).collect();
-        one(&mut out, ver, per_client, &seed, entries);
+        };
+        let entries: Vec<Entry> = pat.iter().map(|&ok| mk(&mut r, ok)).collect();
+        // every third case: an earlier batch through the same responder (deeper or shallower tree than the measured one;
+        // none / some / all of its sends failing)
+        let prelude: Vec<Entry> = if k % 3 == 2 {
+            let pn = *r.pick(&[1usize, 2, 3, 5, 9, 17]);
+            let mode = (k / 3) % 3;
+            (0..pn).map(|i| { let ok = match mode { 0 => true, 1 => i % 2 == 0, _ => false }; mk(&mut r, ok) }).collect()
+        } else { vec![] };
+        one(&mut out, ver, per_client, &seed, entries, prelude);
+    }
+    // what a responder keeps between batches: an earlier batch (every send fine / every other failing / all failing;
+    // 1, 2 or 5 requests) followed, after reset(), by a batch whose return addresses can all be sent to
+    for ver in ['G', 'I'] {
+        for per_client in [false, true] {
+            for mode in 0..3usize {
+                for (j, pn) in [1usize, 2, 5].into_iter().enumerate() {
+                    let mut mk = |r: &mut Rng, ok: bool| {
+                        let addr = if ok { r.range(1, 3) as u16 } else if r.chance(1, 2) { 100 + r.below(3) as u16 } else { 51 + r.below(3) as u16 };
+                        if ver == 'I' {
+                            let nonce = r.bytes(32);
+                            let request = ietf_request(&VER13, None, &nonce, 1024);
+                            Entry { addr, nonce, request }
+                        } else {
+                            Entry { addr, nonce: r.bytes(64), request: vec![] }
+                        }
+                    };
+                    let prelude: Vec<Entry> = (0..pn).map(|i| { let ok = match mode { 0 => true, 1 => i % 2 == 1, _ => false }; mk(&mut r, ok) }).collect();
+                    let entries: Vec<Entry> = (0..[1usize, 3, 2][j]).map(|_| mk(&mut r, true)).collect();
+                    one(&mut out, ver, per_client, &seed, entries, prelude);
+                }
+            }
+        }
     }
     out.flush();
 }
@@ -128,11 +175,13 @@ pub fn replay_one(out: &mut Out, args: &[&str]) {
     let ver = args[0].chars().next().unwrap();
     let per_client = args[1] == "pc";
     let seed = unhex(args[2]);
-    let entries: Vec<Entry> = if args[3] == "~" || args[3].is_empty() { vec![] } else {
-        args[3].split(';').map(|e| {
+    let parse = |a: &str| -> Vec<Entry> { if a == "~" || a.is_empty() { vec![] } else {
+        a.split(';').map(|e| {
             let p: Vec<&str> = e.split(':').collect();
             Entry { addr: p[0].parse().unwrap(), nonce: unhex(p[1]), request: if p[2] == "-" { vec![] } else { unhex(p[2]) } }
         }).collect()
-    };
-    one(out, ver, per_client, &seed, entries);
+    } };
+    let entries = parse(args[3]);
+    let prelude = if args.len() > 4 { parse(args[4]) } else { vec![] };
+    one(out, ver, per_client, &seed, entries, prelude);
 }
